@@ -3,5 +3,6 @@
 b="$1"
 git merge --no-edit "$b" >/dev/null 2>&1
 for f in lean/Driver.lean lean/MW.lean $(git status --short | grep -E "lean/MW/Audit/" | awk '{print $2}'); do git rm -q --cached "$f" 2>/dev/null; done
+for f in $(git status --short | grep -E "^(UU|AA) evidence/" | awk '{print $2}'); do git checkout --theirs "$f"; git add "$f"; done
 git status --short | grep -E "^(UU|AA|DU|UD|AU|UA) " && { echo "UNRESOLVED conflicts above"; exit 1; }
 git commit -q -m "merge $b" && echo "merged $b"
